@@ -130,6 +130,46 @@ MovesWinS(h, kn) ==
         \o MapS(SelectSeq(iv, LAMBDA c : t.nm[c] = "g"), LAMBDA c : MGroupBy(i, <<Col(c)>>, FALSE))
 
 ---------------------------------------------------------------------------
+(* C12: typed alphabet - every way a column of a new type comes into being *)
+TyExprs(t) ==
+    LET iv == Take(VisOfTy(t, "int"), 2)
+        fv == Take(VisOfTy(t, "float"), 1)
+        bv == Take(VisOfTy(t, "bool"), 1)
+        a  == IF iv # <<>> THEN <<iv[1]>> ELSE <<>>
+    IN  Flat(MapS(a, LAMBDA c :
+            <<Fn2("truediv", Col(c), LitI(2)), Fn2("floordiv", Col(c), LitI(2)), Fn2("mod", Col(c), LitI(2)),
+              Cast(Col(c), "float"), Fn2("eq", Col(c), LitI(2)), Fn1("is_null", Col(c)),
+              Case1D(Fn2("gt", Col(c), LitI(0)), Col(c), Fn2("truediv", Col(c), LitI(4))),     \* int / float branches -> float
+              Case1(Fn2("gt", Col(c), LitI(0)), Col(c)),                                        \* no otherwise: nullable int
+              Case1D(Fn2("gt", Col(c), LitI(0)), LitN, Col(c)),
+              Fn2("fill_null", Col(c), LitI(0)), FnN("coalesce", <<Col(c), LitI(1)>>),
+              FnN("hmax", <<Col(c), LitI(0)>>), Fn1("abs", Col(c)), Fn1("neg", Col(c)),
+              Agg("sum", Col(c)), Agg("mean", Col(c)), Agg("min", Col(c)), Agg("count", Col(c)), Len0,
+              Win("rank", <<>>, <<Ord(Col(c), FALSE, "first")>>),
+              Shift(Col(c), 1, <<>>, <<Ord(Col(c), FALSE, "first")>>)>>))
+        \o Flat(MapS(fv, LAMBDA c :
+            <<Fn2("add", Col(c), LitI(1)), Fn2("mul", Col(c), Col(c)), Cast(Col(c), "int"), Fn1("floor", Col(c)), Fn1("ceil", Col(c)),
+              Fn2("lt", Col(c), LitI(1)), Agg("sum", Col(c)), Agg("mean", Col(c)), Agg("max", Col(c)),
+              Fn2("fill_null", Col(c), LitI(0)), Fn1("abs", Col(c))>>))
+        \o Flat(MapS(bv, LAMBDA c :
+            <<Cast(Col(c), "int"), Cast(Col(c), "float"), Fn2("add", Col(c), Col(c)), Agg("sum", Col(c)), Agg("any", Col(c)),
+              Fn1("not", Col(c)), Fn2("and", Col(c), LitB(TRUE)), Fn2("fill_null", Col(c), LitB(FALSE))>>))
+        \o Flat(MapS(a, LAMBDA c : MapS(fv, LAMBDA f : Fn2("add", Col(c), Col(f)))))
+        \o <<LitI(3), LitB(TRUE), LitN>>
+
+MovesTy(h, kn) ==
+    LET i  == Len(h)
+        t  == h[i]
+        te == TyExprs(t)
+        iv == VisOfTy(t, "int")
+        gp == SelectSeq(iv, LAMBDA c : t.nm[c] \in {"g", "a"})
+        isAgg(e) == e.k = "agg"
+    IN  MapS(te, LAMBDA e : MMutate(i, <<KV("x", e)>>))
+        \o MapS(SelectSeq(te, isAgg), LAMBDA e : MSummarize(i, <<KV("s", e)>>))
+        \o MapS(Take(gp, 1), LAMBDA c : MGroupBy(i, <<Col(c)>>, FALSE))
+        \o <<MCollect(i, TRUE)>>
+
+---------------------------------------------------------------------------
 (* C14: every rejection rule, in several syntactic positions, after a short history *)
 BadExprs(t) ==      \* <<expression, context in which it is offered>>; context \in {"mutate", "filter", "summarize", "any"}
     LET iv == Take(VisOfTy(t, "int"), 2)
